@@ -3,7 +3,6 @@ pub mod intmap {
 use vstd::prelude::*;
 #[verifier::external_body]
 #[verifier::accept_recursive_types(V)]
-#[derive(Debug)]
 pub struct IntMap<V> { inner: std::collections::HashMap<u64, V> }
 
 impl<V> View for IntMap<V> {
